@@ -1,7 +1,7 @@
 """C01 — tokenise, encode, decode, detokenise reproduces every valid piece exactly."""
 from hypothesis import strategies as st
 
-from pbt import oracles as O, tok as T
+from pbt import build, oracles as O, tok as T
 from pbt.common import build_input
 from pbt.runner import Outcome
 
@@ -29,7 +29,11 @@ TIERS = {"quick": dict(shards=8, examples=700), "thorough": dict(size=2, shards=
 @st.composite
 def _case(draw, shard, nshards, size=1):
     cfg = draw(T.config(shard=shard, nshards=nshards))
-    return {"cfg": cfg, "piece": draw(T.piece(cfg, max_bars=6 + 3 * (size - 1), max_notes=10 * size))}
+    case = {"cfg": cfg, "piece": draw(T.piece(cfg, max_bars=6 + 3 * (size - 1), max_notes=10 * size))}
+    if draw(st.integers(0, 3)) == 0:
+        # the tokeniser object is not new: it has tokenised and detokenised another piece before
+        case["warmup"] = draw(T.piece(cfg, max_bars=3, max_notes=5))
+    return case
 
 
 def strategy(params, shard, nshards):
@@ -44,6 +48,14 @@ def check(case):
     except Exception as e:
         out.fail("constructor-raises", f"{type(e).__name__}: {e} cfg {cfg}")
         return out
+    if case.get("warmup"):
+        out.label("reused-tokeniser")
+        try:
+            warm = [build.sequence(spec) for spec in case["warmup"]["tracks"]]
+            tok.detokenise(tok.decode(tok.encode(tok.tokenise(warm))))
+        except Exception as e:
+            out.inconclusive = f"warm-up-raised:{type(e).__name__}"      # a failure of the warm-up piece is its own case
+            return out
     seqs, contents = [], []
     for spec in piece["tracks"]:
         built = build_input(out, spec)
